@@ -50,6 +50,12 @@ type Intrusion struct {
 	Pwm  *int `json:"pwm,omitempty"`
 }
 
+type MidIntrusion struct {
+	AtOp int  `json:"atOp"` // applied when the n-th file operation of the cycle is issued
+	Mode *int `json:"mode,omitempty"`
+	Pwm  *int `json:"pwm,omitempty"`
+}
+
 type FaultSpec struct {
 	Target string `json:"target"` // pwm | enable | rpm
 	Op     string `json:"op"`     // r | w
@@ -66,6 +72,7 @@ type CycleStep struct {
 	PlantK  string     `json:"plantKind,omitempty"`
 	Intrude *Intrusion `json:"intrude,omitempty"` // applied after the polls, before the cycle
 	Fault   *FaultSpec `json:"fault,omitempty"`   // active during this cycle only
+	Mid     *MidIntrusion `json:"mid,omitempty"`  // interference in the middle of this cycle
 }
 
 type Scenario struct {
@@ -130,6 +137,8 @@ type CycleRecord struct {
 	RpmAvgBefore float64
 	RpmSeenZero  bool // one of the polls before this cycle read 0 RPM
 	LastRpm      int
+	MidApplied   bool
+	OpsInCycle   int
 }
 
 type World struct {
@@ -298,9 +307,26 @@ func runScenario(ctx *Ctx, sc *Scenario, obs Observer) {
 	d := driver
 	var pwmWrites, modeWrites []int
 	var pwmWriteErrs int
+	var opsInCycle int
+	var mid *MidIntrusion
+	var midApplied bool
 	if w.VFan != nil {
 		v := w.VFan
 		d.Hook = func(ev *util.VerifEvent) {
+			opsInCycle++
+			if mid != nil && opsInCycle == mid.AtOp {
+				if mid.Pwm != nil {
+					x := *mid.Pwm
+					if w.Quant != nil {
+						x = w.Quant(x)
+					}
+					d.Mem[v.PwmPath] = strconv.Itoa(x)
+				}
+				if mid.Mode != nil && sc.Fan.HasEnable {
+					d.Mem[v.EnablePath] = strconv.Itoa(*mid.Mode)
+				}
+				midApplied = true
+			}
 			if ev.Op != "w" {
 				return
 			}
@@ -340,7 +366,11 @@ func runScenario(ctx *Ctx, sc *Scenario, obs Observer) {
 			if st.Intrude.Pwm != nil {
 				switch {
 				case w.VFan != nil:
-					w.VFan.SetPwmRaw(*st.Intrude.Pwm)
+					x := *st.Intrude.Pwm
+					if w.Quant != nil {
+						x = w.Quant(x)
+					}
+					w.VFan.SetPwmRaw(x)
 				case w.Sim != nil:
 					w.Sim.PwmVal = *st.Intrude.Pwm
 				case w.cmdDir != "":
@@ -367,6 +397,7 @@ func runScenario(ctx *Ctx, sc *Scenario, obs Observer) {
 		rec.HadPrev, rec.PrevRequest = hadPrev, prevReq
 		rec.DevPwmBefore = w.devicePwm()
 		pwmWrites, modeWrites, pwmWriteErrs = nil, nil, 0
+		opsInCycle, mid, midApplied = 0, st.Mid, false
 		if w.Sim != nil {
 			w.Sim.Calls = nil
 		}
@@ -379,6 +410,9 @@ func runScenario(ctx *Ctx, sc *Scenario, obs Observer) {
 			rec.Panic = msg
 		}
 		d.Rules = nil
+		mid = nil
+		rec.MidApplied = midApplied
+		rec.OpsInCycle = opsInCycle
 		if w.Sim != nil {
 			for _, c := range w.Sim.Calls {
 				if strings.HasPrefix(c, "SetPwm:") {
